@@ -291,7 +291,7 @@ def float_cmp(a: str, b: str, rtol=1e-9, atol=1e-12):
     return "drift" if drift else "eq"
 
 
-def _driver_shards(cases, shards):
+def _driver_shards(cases, shards, timeout=3000):
     """run the cases through `shards` driver processes in parallel (cases are independent:
     every case starts with a `new` line); returns the concatenated output lines"""
     from concurrent.futures import ThreadPoolExecutor
@@ -306,8 +306,10 @@ def _driver_shards(cases, shards):
         lines = [l for c in cases[b[0]:b[1]] for l in c["lines"]]
         if not lines:
             return []
-        rc, out, err, dt = sh(["lake", "env", "lean", "--run", "Driver.lean"], cwd=LEAN, timeout=3000,
+        rc, out, err, dt = sh(["lake", "env", "lean", "--run", "Driver.lean"], cwd=LEAN, timeout=timeout,
                               inp="\n".join(lines) + "\n")
+        if rc == 124:
+            raise DriverError(f"model driver did not finish within {timeout} s (the model left the states it agrees with the code on)")
         if rc != 0:
             raise DriverError(f"driver exited {rc}: {err[-2000:]}")
         res = out.splitlines()
@@ -320,12 +322,12 @@ def _driver_shards(cases, shards):
     return [l for p in parts for l in p]
 
 
-def lockstep(corr: Corr, cases, canon_model=None, cmp=None, shards=1):
+def lockstep(corr: Corr, cases, canon_model=None, cmp=None, shards=1, timeout=3000):
     """cases: list of dicts {'lines': [...], 'impl': [...], 'meta': …}.  Runs all lines of
     all cases through the driver and diffs line by line."""
     try:
         if shards > 1:
-            outs = _driver_shards(cases, shards)
+            outs = _driver_shards(cases, shards, timeout)
         else:
             outs = run_driver([l for c in cases for l in c["lines"]])
     except DriverError as e:
